@@ -9,14 +9,30 @@ import (
 	"strings"
 )
 
+// heapBase: the current version of a heap array differs from `term` only inside the objects `objs`, which
+// were allocated by the function under verification and had not escaped when they were written.
+type baseObj struct {
+	term string     // oid term
+	typ  types.Type // allocated type (struct/array type, or the element type of a slice backing store)
+}
+
+type heapBase struct {
+	term string
+	objs []baseObj
+}
+
 type state struct {
 	heap   map[string]string // heap key -> current term; a missing key denotes the entry version
 	alloc  string            // allocation counter (Int term)
 	locals map[string]string // register-allocated local cells: alloc key -> value term
+	base   map[string]heapBase
 }
 
 func (s *state) clone() *state {
-	n := &state{heap: make(map[string]string, len(s.heap)), alloc: s.alloc, locals: make(map[string]string, len(s.locals))}
+	n := &state{heap: make(map[string]string, len(s.heap)), alloc: s.alloc, locals: make(map[string]string, len(s.locals)), base: make(map[string]heapBase, len(s.base))}
+	for k, v := range s.base {
+		n.base[k] = heapBase{v.term, append([]baseObj{}, v.objs...)}
+	}
 	for k, v := range s.heap {
 		n.heap[k] = v
 	}
@@ -126,7 +142,23 @@ func (c *smtctx) entrySym(key string) string {
 	if !ok {
 		panic("heap key without sort: " + key)
 	}
-	return c.declConst(key+"!0", srt)
+	n := key + "!0"
+	if !c.declared[n] {
+		c.declConst(n, srt)
+		c.heapWF(n, srt, "A!0")
+	}
+	return n
+}
+
+// heapWF: a cell of an object that exists holds only references to objects that exist (no reference to an
+// object allocated after the allocation counter `alloc` of the state in which the version is current).
+func (c *smtctx) heapWF(version, srt, alloc string) {
+	switch srt {
+	case "(Array Ref Ref)":
+		c.assume(fmt.Sprintf("(forall ((wf!a Ref)) (! (=> (< (born wf!a) %s) (< (born (select %s wf!a)) %s)) :pattern ((select %s wf!a))))", alloc, version, alloc, version))
+	case "(Array Ref Slice)":
+		c.assume(fmt.Sprintf("(forall ((wf!a Ref)) (! (=> (< (born wf!a) %s) (< (born (sdata (select %s wf!a))) %s)) :pattern ((select %s wf!a))))", alloc, version, alloc, version))
+	}
 }
 
 func (c *smtctx) heapGet(st *state, key string) string {
